@@ -11,6 +11,7 @@ import json
 
 import vlib
 from checks import rxref as R
+from checks import lexrx_common as LC
 
 META = {
     "property_id": "C21",
@@ -175,8 +176,9 @@ def run(ctx):
     tr_lines, tr_meta = [], []
     for t in trees:
         src = R.source(t, rng)
+        lt = LC.letters_hex(src.encode("utf-8", "surrogatepass"))
         for fl in range(64):
-            tr_lines.append("rx\ttr\t%d\t%s" % (fl, hx(src)))
+            tr_lines.append("rx\ttr\t%d\t%s\t%s" % (fl, hx(src), lt))
             tr_meta.append((t, src, fl))
     impl = vlib.run_impl(tr_lines)
     model_lines, model_idx = [], []
@@ -201,22 +203,22 @@ def run(ctx):
                 ctx.violation("property-fails", {"line": tr_lines[k], "tree": t},
                               f"the parser's tree is not the tree the source was printed from: source={src!r} want {want_ast} got {got}")
             continue
-        model_lines.append("rx\ttrm\t%d\t%s" % (fl, got[4:]))
+        model_lines.append(tr_lines[k])   # the whole front end on the pattern TEXT: Lean lexer + parser + transpiler
         model_idx.append(k)
     model = vlib.run_model(model_lines)
     agree = True
     mism = []
     for k, mans in zip(model_idx, model):
-        a = impl[k].split(" ", 1)[1]
+        a = impl[k]
         if mans.startswith("bad-"):
             raise RuntimeError("model rejected " + model_lines[model_idx.index(k)])
-        ctx.stat("transpile:" + a.split("=")[0])
+        ctx.stat("transpile:" + a.split(" ", 1)[1].split("=")[0])
         if a != mans:
             agree = False
             mism.append(k)
     ctx.extra["transpile_lines"] = len(model_lines)
     ctx.obligation(f"(parse) real parser tree = generated tree on {len(trees)} sources", parse_ok, "correspondence")
-    ctx.obligation(f"(i) regex.Transpile = Lean transpile on {len(model_lines)} (tree, flags) pairs", agree, "correspondence")
+    ctx.obligation(f"(i) regex.Parse + regex.Transpile = Lean front end (lexer, parser, transpiler) on {len(model_lines)} (source, flags) pairs", agree, "correspondence")
 
     # ---- leg (iii): matching
     m_lines, m_meta = [], []
@@ -448,6 +450,7 @@ def replay(ctx):
         elif "tree" in inp and a.split(" ")[0] != "ast=" + R.dump(totuple(inp["tree"])):
             ctx.violation("property-fails", inp, "parser tree still differs: " + a[:200])
         elif a.startswith("ast="):
-            m = vlib.run_model(["rx\ttrm\t%s\t%s" % (f[2], a.split(" ")[0][4:])])[0]
-            if m != a.split(" ", 1)[1]:
+            pat = bytes.fromhex(f[3].replace("-", ""))
+            m = vlib.run_model(["rx\ttr\t%s\t%s\t%s" % (f[2], f[3], LC.letters_hex(pat))])[0]
+            if m != a:
                 ctx.violation("model-impl-disagree", inp, f"impl={a!r} model={m!r}", no_input=True)
